@@ -19,7 +19,8 @@
 EXTENDS Integers, FiniteSets, Sequences, TLC
 
 CONSTANTS Vms, Caches,
-          NProg        \* programs per hash call (8 in RandomX; 2 suffices for exhaustive checking)
+          NProg,       \* programs per hash call (8 in RandomX; 2 suffices for exhaustive checking)
+          RetryWithAll \* FALSE = the code as it is; TRUE = defect variant: a refused RW->RX change is retried with R+W+X
 
 Bufs == Vms \cup Caches                       \* one code buffer per JIT VM / JIT cache
 None == "none"
@@ -30,11 +31,13 @@ VARIABLES prot,     \* [Bufs -> "unmapped" | "RW" | "RX" | "RWX"]
           alive,    \* [Bufs -> BOOLEAN]
           inited,   \* [Caches -> BOOLEAN]  cache holds compiled code
           todo,     \* remaining primitive steps of the call in progress: sequence of <<op, buffer>>
-          fault     \* TRUE once a step wrote without W or executed without X (would be a crash)
-vars == <<prot, secure, light, alive, inited, todo, fault>>
+          fault,    \* TRUE once a step wrote without W or executed without X (would be a crash)
+          refused   \* [Bufs -> BOOLEAN] the operating system refused a protection change of the buffer at least once (the call ended there)
+vars == <<prot, secure, light, alive, inited, todo, fault, refused>>
 
 Init == /\ prot = [b \in Bufs |-> "unmapped"] /\ secure = [v \in Vms |-> FALSE] /\ light = [v \in Vms |-> FALSE]
         /\ alive = [b \in Bufs |-> FALSE] /\ inited = [c \in Caches |-> FALSE] /\ todo = <<>> /\ fault = FALSE
+        /\ refused = [b \in Bufs |-> FALSE]
 
 W(p) == p \in {"RW", "RWX"}
 X(p) == p \in {"RX", "RWX"}
@@ -49,48 +52,48 @@ CreateVm(v, sec, lt) ==
   /\ alive' = [alive EXCEPT ![v] = TRUE] /\ secure' = [secure EXCEPT ![v] = sec] /\ light' = [light EXCEPT ![v] = lt]
   /\ todo' = << <<"Map", v>> >> \o (IF sec THEN <<>> ELSE << <<"EnableAll", v>> >>)
              \o (IF lt THEN Bracket(v, sec) ELSE <<>>)          \* light VM: setCache compiles SuperscalarHash
-  /\ UNCHANGED <<prot, inited, fault>>
+  /\ UNCHANGED <<prot, inited, fault, refused>>
 
 RECURSIVE Progs(_, _)
 Progs(v, n) == IF n = 0 THEN <<>> ELSE Bracket(v, secure[v]) \o << <<"Execute", v>> >> \o Progs(v, n - 1)
 RunPrograms(v) ==          \* a hash call that runs programs: each is generated, then executed
   /\ todo = <<>> /\ alive[v]
   /\ todo' = Progs(v, NProg)
-  /\ UNCHANGED <<prot, secure, light, alive, inited, fault>>
+  /\ UNCHANGED <<prot, secure, light, alive, inited, fault, refused>>
 
 SetCache(v) ==
   /\ todo = <<>> /\ alive[v] /\ light[v]
   /\ todo' = Bracket(v, secure[v])
-  /\ UNCHANGED <<prot, secure, light, alive, inited, fault>>
+  /\ UNCHANGED <<prot, secure, light, alive, inited, fault, refused>>
 
 DestroyVm(v) ==
   /\ todo = <<>> /\ alive[v]
   /\ alive' = [alive EXCEPT ![v] = FALSE]
   /\ todo' = << <<"Unmap", v>> >>
-  /\ UNCHANGED <<prot, secure, light, inited, fault>>
+  /\ UNCHANGED <<prot, secure, light, inited, fault, refused>>
 
 AllocCache(c) ==
   /\ todo = <<>> /\ ~alive[c]
   /\ alive' = [alive EXCEPT ![c] = TRUE] /\ inited' = [inited EXCEPT ![c] = FALSE]
   /\ todo' = << <<"Map", c>> >>
-  /\ UNCHANGED <<prot, secure, light, fault>>
+  /\ UNCHANGED <<prot, secure, light, fault, refused>>
 
 InitCache(c) ==             \* (re-)keying compiles the dataset-init code; always bracketed
   /\ todo = <<>> /\ alive[c]
   /\ inited' = [inited EXCEPT ![c] = TRUE]
   /\ todo' = Bracket(c, TRUE)
-  /\ UNCHANGED <<prot, secure, light, alive, fault>>
+  /\ UNCHANGED <<prot, secure, light, alive, fault, refused>>
 
 InitDataset(c) ==           \* runs the cache's compiled initialiser
   /\ todo = <<>> /\ alive[c] /\ inited[c]
   /\ todo' = << <<"Execute", c>> >>
-  /\ UNCHANGED <<prot, secure, light, alive, inited, fault>>
+  /\ UNCHANGED <<prot, secure, light, alive, inited, fault, refused>>
 
 ReleaseCache(c) ==
   /\ todo = <<>> /\ alive[c]
   /\ alive' = [alive EXCEPT ![c] = FALSE]
   /\ todo' = << <<"Unmap", c>> >>
-  /\ UNCHANGED <<prot, secure, light, inited, fault>>
+  /\ UNCHANGED <<prot, secure, light, inited, fault, refused>>
 
 \* --- one primitive step -------------------------------------------------------------------
 Step ==
@@ -104,10 +107,19 @@ Step ==
                       [] op = "EnableAll" -> [prot EXCEPT ![b] = "RWX"]
                       [] op = "Unmap" -> [prot EXCEPT ![b] = "unmapped"]
                       [] OTHER -> prot
-         /\ fault' = (fault \/ (op = "Generate" /\ ~W(prot[b])) \/ (op = "Execute" /\ ~X(prot[b])))
+         /\ fault' = (fault \/ (~refused[b] /\ ((op = "Generate" /\ ~W(prot[b])) \/ (op = "Execute" /\ ~X(prot[b])))))
+         /\ refused' = IF op = "Map" THEN [refused EXCEPT ![b] = FALSE] ELSE refused       \* a new mapping starts afresh
   /\ UNCHANGED <<secure, light, alive, inited>>
 
-Next == \/ Step
+\* the operating system refuses a protection change (mprotect fails): the buffer keeps its protection, the library throws and the
+\* call ends there (its remaining steps are not executed).  Nothing is retried with other rights.
+StepRefused ==
+  /\ todo # <<>> /\ Head(todo)[1] \in {"EnableWriting", "EnableExecution", "EnableAll"}
+  /\ todo' = IF RetryWithAll /\ Head(todo)[1] = "EnableExecution" THEN << <<"EnableAll", Head(todo)[2]>> >> \o Tail(todo) ELSE <<>>
+  /\ refused' = [refused EXCEPT ![Head(todo)[2]] = TRUE]
+  /\ UNCHANGED <<prot, secure, light, alive, inited, fault>>
+
+Next == \/ Step \/ StepRefused
         \/ \E v \in Vms, s \in BOOLEAN, lt \in BOOLEAN : CreateVm(v, s, lt)
         \/ \E v \in Vms : RunPrograms(v) \/ SetCache(v) \/ DestroyVm(v)
         \/ \E c \in Caches : AllocCache(c) \/ InitCache(c) \/ InitDataset(c) \/ ReleaseCache(c)
@@ -121,6 +133,6 @@ NoWX == \A b \in Bufs : (prot[b] # "unmapped" /\ MustWX(b)) => ~(W(prot[b]) /\ X
 NoFault == ~fault
 \* between calls a secure/cache buffer is never left writable after code was put there
 RestsExecutable == todo = <<>> =>
-   \A b \in Bufs : (alive[b] /\ MustWX(b) /\ ((b \in Caches /\ inited[b]) \/ (b \in Vms /\ light[b]))) => prot[b] = "RX"
+   \A b \in Bufs : (alive[b] /\ ~refused[b] /\ MustWX(b) /\ ((b \in Caches /\ inited[b]) \/ (b \in Vms /\ light[b]))) => prot[b] = "RX"
 NoLeakedMapping == todo = <<>> => \A b \in Bufs : ~alive[b] => prot[b] = "unmapped"
 =============================================================================
